@@ -1,3 +1,4 @@
+#include <algorithm>
 // Driver for the element-wise properties (C01 C02 C03-compare C06 C07 C08 C13-exact C17).
 // One worker process handles the (op,type) groups with index % nworkers == worker.
 #include "elem_gen.hpp"
@@ -66,7 +67,43 @@ static std::vector<std::vector<uint64_t>> value_lists(const OpDef& d, TypeId t, 
             L.push_back(e);
         }
         else
+        {
             L.push_back(full ? full_list(t) : lattice(t));
+            if (!full && d.family == "conv" && !tfloat(t) && tbits(t) >= 32)
+            {
+                // integer sources of a conversion: values around the rounding decision of a 24- / 53-bit significand
+                auto& v = L.back();
+                const uint64_t m = tmask(t);
+                std::vector<uint64_t> e;
+                if (tbits(t) == 64)
+                    for (int k : { 52, 53, 54, 62, 63, 64 })
+                    {
+                        const uint64_t b2 = k == 64 ? 0 : 1ull << k;
+                        const uint64_t q = 1ull << (k > 53 ? k - 53 : 0); // spacing of doubles below 2^k
+                        for (uint64_t dlt : { (uint64_t)1, q / 2, q / 2 + 1, q, q + q / 2, 2 * q - 1 })
+                            if (dlt)
+                            {
+                                e.push_back(b2 - dlt);
+                                e.push_back(b2 + dlt);
+                            }
+                    }
+                for (int k : { 24, 25, 26, 31, 32 })
+                    if (k <= tbits(t))
+                    {
+                        const uint64_t b2 = k == 64 ? 0 : 1ull << k;
+                        const uint64_t q = 1ull << (k > 24 ? k - 24 : 0);
+                        for (uint64_t dlt : { (uint64_t)1, q / 2, q / 2 + 1, q, q + q / 2 })
+                            if (dlt)
+                            {
+                                e.push_back(b2 - dlt);
+                                e.push_back(b2 + dlt);
+                            }
+                    }
+                for (uint64_t x : e)
+                    if (std::find(v.begin(), v.end(), x & m) == v.end())
+                        v.push_back(x & m);
+            }
+        }
     }
     return L;
 }
